@@ -266,9 +266,9 @@ impl Prop for C07 {
             },
         );
         vec![
-            stage("small-budget", small, tier.pick(1200, 40_000)).shrink(400),
-            stage("parallel-large", par, tier.pick(48, 1000)).shrink(30),
-            stage("public-api", public, tier.pick(150, 4000)).shrink(200),
+            stage("small-budget", small, tier.pick(8000, 120_000)).shrink(400),
+            stage("parallel-large", par, tier.pick(96, 2000)).shrink(30),
+            stage("public-api", public, tier.pick(600, 8000)).shrink(200),
         ]
     }
 
